@@ -68,6 +68,19 @@ def corr(ctx):
             ops.append(Op("gray %d" % n, str(int(g_)), info={"site": "modulations.utils:binary_array_to_gray", "config": {"n": n}}))
             ops.append(Op("ungray %d" % n, str(int(u_)), info={"site": "modulations.utils:gray_array_to_binary", "config": {"n": n}}))
         ctx.count("gray_array", len(arr))
+    # 1-D arrays whose maximum is a power of two / one below / one above (fold counts derived from the maximum), singletons, descending
+    for j in list(range(0, 41)) + [48, 56, 60]:
+        for arr in ([1 << j], [(1 << j) - 1, 1 << j], [0, 3, 1 << j], [(1 << j) + 1, 5], [1 << j, 1, 2, (1 << j) >> 1]):
+            flat = [x for r in arr for x in (r if isinstance(r, list) else [r])]
+            if any(x in (1022, 1023, 1365, 1638, 512) for x in flat):
+                continue      # hard-coded values: listed findings of the scalar helpers
+            t = torch.tensor(arr, dtype=torch.int64)
+            ga = binary_array_to_gray(t).reshape(-1).tolist()
+            ua = gray_array_to_binary(t).reshape(-1).tolist()
+            for n, g_, u_ in zip(flat, ga, ua):
+                ops.append(Op("gray %d" % n, str(int(g_)), info={"site": "modulations.utils:binary_array_to_gray", "config": {"n": n, "array": str(arr)[:60]}}))
+                ops.append(Op("ungray %d" % n, str(int(u_)), info={"site": "modulations.utils:gray_array_to_binary", "config": {"n": n, "array": str(arr)[:60]}}))
+            ctx.count("gray_array_pow2", len(flat))
     # tables: the same table text goes to the model driver; checkers are evaluated there too
     for name, (inst, pts, lo, hi) in _load(ctx).items():
         ops.append(Op("deftable %s %d %s" % (name, inst.b, ";".join("%d,%d,%d" % p for p in pts)), "ok", nontrivial=False))
@@ -103,6 +116,35 @@ def search(ctx, mismatches, broken, prop_fail):
 
     def viol(site, config, what, ops):
         out.append({"site": site, "config": config, "what": what, "ops": ops, "kind": "failing-input"})
+    # array forms: mutually inverse, element by element, whatever else is in the array
+    import torch
+    from kaira.modulations.utils import binary_array_to_gray, gray_array_to_binary
+    arrays = []
+    for m in mismatches:
+        cfg = m["info"].get("config", {})
+        if "array" in str(m["info"].get("site", "")) and cfg.get("n") is not None:
+            arrays.append([int(cfg["n"])]); arrays.append([int(cfg["n"]), 1]); arrays.append([0, 3, int(cfg["n"])])
+    arrays += [[1 << j] for j in range(0, 41)] + [[rng.getrandbits(rng.randint(1, 60)) for _ in range(rng.randint(1, 6))] for _ in range(100)]
+    seen_arr = 0
+    for arr in arrays:
+        if any(x in (1022, 1023, 1365, 1638, 512) for x in arr):
+            continue
+        t = torch.tensor(arr, dtype=torch.int64)
+        try:
+            back = gray_array_to_binary(binary_array_to_gray(t)).reshape(-1).tolist()
+            fwd = binary_array_to_gray(gray_array_to_binary(t)).reshape(-1).tolist()
+        except Exception as e:
+            viol("modulations.utils:gray_array_to_binary", {"array": arr}, "array Gray conversion of %s raises %s" % (arr, type(e).__name__), [])
+            seen_arr += 1
+            continue
+        if [int(v) for v in back] != arr:
+            viol("modulations.utils:gray_array_to_binary", {"array": arr}, "gray_array_to_binary(binary_array_to_gray(%s)) = %s" % (arr, [int(v) for v in back]), ["ungray %d" % a for a in arr])
+            seen_arr += 1
+        elif [int(v) for v in fwd] != arr:
+            viol("modulations.utils:binary_array_to_gray", {"array": arr}, "binary_array_to_gray(gray_array_to_binary(%s)) = %s" % (arr, [int(v) for v in fwd]), ["gray %d" % a for a in arr])
+            seen_arr += 1
+        if seen_arr >= 3:
+            break
     cands = set(range(4096)) | {rng.getrandbits(rng.randint(13, 60)) for _ in range(500)}
     for m in mismatches:
         n = m["info"].get("config", {}).get("n")
